@@ -29,11 +29,12 @@ VARIANT_INDEX = {("core::option::Option", "None"): 0, ("core::option::Option", "
 
 
 def api_of(path):
-    m = re.match(r"^griddle::(?!external_trait_impls::)(?:\w+::)*?(\w+)::<.*?>::(\w+)(?:::<.*>)?$", path)
+    m = re.match(r"^griddle::(?!external_trait_impls::)(?:\w+::)*?(\w+)::<(?!impl ).*?>::(\w+)(?:::<.*>)?$", path)
     if m:
         return "%s::%s" % (m.group(1), m.group(2))
-    m = re.match(r"^griddle::external_trait_impls::rayon::(?:\w+::)*<impl (?:\w+::)*(\w+)<.*>>::(\w+)$", path)
-    if m:
+    # an inherent impl block placed in another module than the type (`impl HashMap { .. }` in map/raw_entry.rs, the rayon methods)
+    m = re.match(r"^griddle::(?:external_trait_impls::rayon::)?(?:\w+::)*<impl (?:\w+::)*(\w+)<.*>>::(\w+)$", path)
+    if m and " for " not in path and (not path.startswith("griddle::external_trait_impls::") or path.startswith("griddle::external_trait_impls::rayon::")):
         return "%s::%s" % (m.group(1), m.group(2))
     m = re.match(r"^griddle::<&'?\w* ?(?:\w+::)*(\w+)<.*> as rayon::iter::IntoParallelIterator>::into_par_iter$", path)
     if m:
